@@ -63,6 +63,29 @@ def main():
                               "real": [(r.name, list(r.control_indices) + list(r.target_indices), list(r.params)) for r in real],
                               "model": exp})
         res.sample({"class": cname, "targets": t["targets"], "body": t["body"][:3]}, limit=3)
+    # NormalizeRotationTranspiler (model/Period.v): the output angle is the input shifted by an integer multiple of 2 pi
+    # into [lower, lower + 2 pi); kind and qubit are kept
+    from quri_parts.circuit.transpile import NormalizeRotationTranspiler
+    from quri_parts.circuit import QuantumCircuit
+    for _ in range(40 if a.tier == "quick" else 600):
+        lower = rng.choice([0.0, -math.pi, -2 * math.pi, 1.0, rng.uniform(-20, 20)])
+        tr = NormalizeRotationTranspiler((lower, lower + 2 * math.pi))
+        name = rng.choice(["RX", "RY", "RZ"])
+        th = rng.choice([O.rand_angle(rng), rng.uniform(-50, 50), lower, lower + 2 * math.pi, lower - 1e-13, 0.0])
+        q = rng.randrange(5)
+        c = QuantumCircuit(5)
+        c.add_gate(make_gate(name, [q], [th]))
+        out = list(tr(c).gates)
+        res.count(("normalize", name, lower, th), bucket="NormalizeRotationTranspiler")
+        ok = len(out) == 1 and out[0].name == name and list(out[0].target_indices) == [q]
+        if ok:
+            t2 = out[0].params[0]
+            k = (t2 - th) / (2 * math.pi)
+            ok = abs(k - round(k)) < 1e-9 and lower - 1e-9 <= t2 < lower + 2 * math.pi + 1e-9
+        if not ok:
+            res.fail("corr:NormalizeRotationTranspiler", "output is not the same gate with its angle shifted by a multiple of 2 pi "
+                     "into the cycle range", {"gate": name, "theta": th, "lower": lower,
+                                               "out": [(g.name, list(g.target_indices), list(g.params)) for g in out]})
     res.emit()
 
 
